@@ -248,6 +248,58 @@ func (e *c12Eng) fromFacts(fs []Fact, depth int) (ssa.Value, bool) {
 			return s, true
 		}
 	}
+	// several facts about one result of a helper (`switch h(x) { case 403: ..return; case 401: ..return }` leaves
+	// `h(x) != 403` and `h(x) != 401` behind): the returns of h that satisfy all of them lie under the fact
+	if len(fs) < 2 || depth > c12MaxDepth {
+		return nil, false
+	}
+	type group struct {
+		v    ssa.Value
+		cons []c12Cons
+	}
+	var groups []*group
+	for _, f := range fs {
+		v, cons := c12ConsOfFact(f.Cond, f.Truth)
+		var g *group
+		for _, h := range groups {
+			if h.v == v {
+				g = h
+			}
+		}
+		if g == nil {
+			g = &group{v: v}
+			groups = append(groups, g)
+		}
+		g.cons = append(g.cons, cons)
+	}
+	for _, g := range groups {
+		if len(g.cons) < 2 {
+			continue
+		}
+		call, idx := (*ssa.Call)(nil), 0
+		switch x := g.v.(type) {
+		case *ssa.Call:
+			call = x
+		case *ssa.Extract:
+			if c, ok := x.Tuple.(*ssa.Call); ok {
+				call, idx = c, x.Index
+			}
+		}
+		if call == nil || call.Call.IsInvoke() {
+			continue
+		}
+		sc := call.Call.StaticCallee()
+		if sc == nil {
+			continue
+		}
+		sc = unwrap(sc)
+		if !isRepoFn(sc) || len(sc.Blocks) == 0 {
+			continue
+		}
+		if s, ok := e.impliedReturnsAll(sc, idx, g.cons, call, depth+1); ok {
+			return s, true
+		}
+	}
 	return nil, false
 }
 
@@ -366,6 +418,11 @@ func (e *c12Eng) impliedCall(call *ssa.Call, idx int, cons c12Cons, depth int) (
 // impliedReturns: every return of fn whose idx-th result can satisfy cons lies under the fact. A subject that is a
 // parameter of fn is translated to the argument at call.
 func (e *c12Eng) impliedReturns(fn *ssa.Function, idx int, cons c12Cons, call *ssa.Call, depth int) (ssa.Value, bool) {
+	return e.impliedReturnsAll(fn, idx, []c12Cons{cons}, call, depth)
+}
+
+// impliedReturnsAll: the same for the returns whose idx-th result can satisfy all of the constraints.
+func (e *c12Eng) impliedReturnsAll(fn *ssa.Function, idx int, conss []c12Cons, call *ssa.Call, depth int) (ssa.Value, bool) {
 	if depth > c12MaxDepth {
 		return nil, false
 	}
@@ -377,14 +434,28 @@ func (e *c12Eng) impliedReturns(fn *ssa.Function, idx int, cons c12Cons, call *s
 			return
 		}
 		res := r.Results[idx]
-		t := c12Sat(res, cons)
+		t := c12Yes
+		for _, cons := range conss {
+			switch c12Sat(res, cons) {
+			case c12No:
+				t = c12No
+			case c12Unknown:
+				if t != c12No {
+					t = c12Unknown
+				}
+			}
+		}
 		if t == c12No {
 			return
 		}
 		var s ssa.Value
 		ok := false
 		if t == c12Unknown {
-			s, ok = e.implied(res, cons, depth+1)
+			for _, cons := range conss {
+				if s, ok = e.implied(res, cons, depth+1); ok {
+					break
+				}
+			}
 		}
 		if !ok {
 			s, ok = e.at(r.Block(), depth+1)
@@ -412,12 +483,15 @@ func (e *c12Eng) impliedReturns(fn *ssa.Function, idx int, cons c12Cons, call *s
 // ---- decision tables ---------------------------------------------------------------------------------------------
 
 // c12VRet is one outcome of a bool function: it returns val when the extra facts hold and control is at (the end of)
-// each of blks (the returning block; for a value merged by a phi, the predecessor the value comes from).
+// each of blks (the returning block; for a value merged by a phi, the predecessor the value comes from; for an outcome
+// of a function whose verdict is handed on - `return g(x)` - also g's returning block). ret is the returning block in
+// the function itself.
 type c12VRet struct {
 	val   bool
 	extra []Fact
 	blks  []*ssa.BasicBlock
 	pos   token.Pos
+	ret   *ssa.BasicBlock
 }
 
 // holds: the fact is established for this outcome.
@@ -434,23 +508,37 @@ func (e *c12Eng) holds(v c12VRet) (ssa.Value, bool) {
 }
 
 // c12VirtualReturns enumerates the outcomes of fn's idx-th (bool) result. `return v` with a non-constant v yields the
-// two outcomes (true, facts+v) and (false, facts+!v); phis (`a && b`, flags) are taken apart edge by edge.
+// two outcomes (true, facts+v) and (false, facts+!v); phis (`a && b`, flags) are taken apart edge by edge; a verdict
+// handed on from a repository function (`return g(x)`, `d := g(x); log; return d`, `return !g(x)`) is replaced by g's
+// outcomes (each with the fact `g(x) == its value`), so that a wrapper has the decision table of what it wraps.
 func c12VirtualReturns(fn *ssa.Function, idx int) []c12VRet {
+	type pending struct {
+		call *ssa.Call
+		neg  bool
+	}
 	var out []c12VRet
-	var expand func(v ssa.Value, neg bool, extra []Fact, blks []*ssa.BasicBlock, pos token.Pos, depth int)
-	expand = func(v ssa.Value, neg bool, extra []Fact, blks []*ssa.BasicBlock, pos token.Pos, depth int) {
+	var expand func(v ssa.Value, neg bool, extra []Fact, blks []*ssa.BasicBlock, pos token.Pos, ret *ssa.BasicBlock, pend []pending, depth int)
+	emit := func(val bool, extra []Fact, blks []*ssa.BasicBlock, pos token.Pos, ret *ssa.BasicBlock, pend []pending) {
+		ex := append([]Fact{}, extra...)
+		for _, p := range pend {
+			ex = append(ex, Fact{p.call, val != p.neg})
+		}
+		out = append(out, c12VRet{val, ex, blks, pos, ret})
+	}
+	onStack := map[*ssa.Function]bool{fn: true}
+	expand = func(v ssa.Value, neg bool, extra []Fact, blks []*ssa.BasicBlock, pos token.Pos, ret *ssa.BasicBlock, pend []pending, depth int) {
 		if bv, isK := constBool(v); isK {
-			out = append(out, c12VRet{bv != neg, extra, blks, pos})
+			emit(bv != neg, extra, blks, pos, ret, pend)
 			return
 		}
 		switch x := v.(type) {
 		case *ssa.UnOp:
 			if x.Op == token.NOT {
-				expand(x.X, !neg, extra, blks, pos, depth+1)
+				expand(x.X, !neg, extra, blks, pos, ret, pend, depth+1)
 				return
 			}
 			if st := c12CellValue(x); st != nil && depth < 4 {
-				expand(st, neg, extra, blks, pos, depth+1)
+				expand(st, neg, extra, blks, pos, ret, pend, depth+1)
 				return
 			}
 		case *ssa.Phi:
@@ -461,22 +549,57 @@ func c12VirtualReturns(fn *ssa.Function, idx int) []c12VRet {
 					if f, ok := c12EdgeFact(p, x.Block()); ok {
 						ex = append(ex, f)
 					}
-					expand(ed, neg, ex, append([]*ssa.BasicBlock{p}, blks...), pos, depth+1)
+					expand(ed, neg, ex, append([]*ssa.BasicBlock{p}, blks...), pos, ret, pend, depth+1)
 				}
 				return
+			}
+		case *ssa.Call:
+			if g := c12VerdictCallee(x); g != nil && !onStack[g] && len(pend) < 2 {
+				onStack[g] = true
+				n := len(out)
+				pd := append(append([]pending{}, pend...), pending{x, neg})
+				eachInstr(g, func(i ssa.Instruction) {
+					if r, ok := i.(*ssa.Return); ok && len(r.Results) == 1 {
+						expand(r.Results[0], neg, extra, append([]*ssa.BasicBlock{r.Block()}, blks...), r.Pos(), ret, pd, 0)
+					}
+				})
+				delete(onStack, g)
+				if len(out) > n {
+					return
+				}
 			}
 		}
 		for _, t := range []bool{true, false} {
 			ex := append([]Fact{{v, t}}, extra...)
-			out = append(out, c12VRet{t != neg, ex, blks, pos})
+			emit(t != neg, ex, blks, pos, ret, pend)
 		}
 	}
 	eachInstr(fn, func(i ssa.Instruction) {
 		if r, ok := i.(*ssa.Return); ok && idx < len(r.Results) {
-			expand(r.Results[idx], false, nil, []*ssa.BasicBlock{r.Block()}, r.Pos(), 0)
+			expand(r.Results[idx], false, nil, []*ssa.BasicBlock{r.Block()}, r.Pos(), r.Block(), nil, 0)
 		}
 	})
 	return out
+}
+
+// c12VerdictCallee: call is a static call of a repository function with a body and a single bool result.
+func c12VerdictCallee(call *ssa.Call) *ssa.Function {
+	if call.Call.IsInvoke() {
+		return nil
+	}
+	sc := call.Call.StaticCallee()
+	if sc == nil {
+		return nil
+	}
+	sc = unwrap(sc)
+	if !isRepoFn(sc) || len(sc.Blocks) == 0 {
+		return nil
+	}
+	res := sc.Signature.Results()
+	if res.Len() != 1 || !types.Identical(res.At(0).Type().Underlying(), types.Typ[types.Bool]) {
+		return nil
+	}
+	return sc
 }
 
 // c12CellValue: load is `*cell` of a local cell (a result or variable that a closure captures) and the same block
@@ -629,6 +752,9 @@ func c12Slice(v ssa.Value, ctx []ssa.CallInstruction, visit func(ssa.Value) bool
 				for _, a := range c12CombinatorOperands(fn) {
 					walk(a)
 				}
+				for _, a := range c12YieldArgs(fn, idx) {
+					walk(a)
+				}
 				hops--
 				return
 			}
@@ -723,6 +849,35 @@ func c12Slice(v ssa.Value, ctx []ssa.CallInstruction, visit func(ssa.Value) bool
 							}
 						}
 					}
+				}
+			}
+		case *ssa.Global:
+			// a package-level variable: what its package initialiser (or any direct store) puts there
+			for _, st := range gGlobalStores[x] {
+				walk(st.Val)
+			}
+			if x.Pkg != nil {
+				if ini := x.Pkg.Func("init"); ini != nil {
+					eachInstr(ini, func(i ssa.Instruction) {
+						st, ok := i.(*ssa.Store)
+						if !ok {
+							return
+						}
+						for a := st.Addr; ; {
+							switch y := a.(type) {
+							case *ssa.FieldAddr:
+								a = y.X
+								continue
+							case *ssa.IndexAddr:
+								a = y.X
+								continue
+							}
+							if a == ssa.Value(x) && st.Addr != ssa.Value(x) {
+								walk(st.Val)
+							}
+							break
+						}
+					})
 				}
 			}
 		case *ssa.BinOp:
@@ -823,6 +978,39 @@ func c12CombinatorOperands(fn *ssa.Function) []ssa.Value {
 		}
 		if !cc.IsInvoke() && cc.StaticCallee() == nil {
 			out = append(out, cc.Value) // seq(yield): the iterator the body is handed to
+		}
+	})
+	return out
+}
+
+// c12YieldArgs: fn is the body of `for x := range seq` over an iterator of the repository (`func (x forwardedFor)
+// addrs() iter.Seq[net.IP]`): the values the iterator hands to its yield function as the idx-th argument.
+func c12YieldArgs(fn *ssa.Function, idx int) []ssa.Value {
+	var out []ssa.Value
+	if fn.Parent() == nil || idx < 0 {
+		return nil
+	}
+	eachInstr(fn.Parent(), func(i ssa.Instruction) {
+		cc := callCommon(i)
+		if cc == nil || cc.IsInvoke() || cc.StaticCallee() != nil || len(cc.Args) != 1 {
+			return
+		}
+		if mc, ok := cc.Args[0].(*ssa.MakeClosure); !ok || mc.Fn != ssa.Value(fn) {
+			return
+		}
+		for _, it := range funcsOf(cc.Value) {
+			if len(it.Params) == 0 || len(it.Blocks) == 0 {
+				continue
+			}
+			yield := it.Params[len(it.Params)-1]
+			if _, isFn := yield.Type().Underlying().(*types.Signature); !isFn {
+				continue
+			}
+			eachInstr(it, func(j ssa.Instruction) {
+				if c2 := callCommon(j); c2 != nil && c2.Value == ssa.Value(yield) && idx < len(c2.Args) {
+					out = append(out, c2.Args[idx])
+				}
+			})
 		}
 	})
 	return out
